@@ -149,6 +149,8 @@ func exec(op string) (res string) {
 			panic("bad clock")
 		}
 		return burst(uint32(c), int(i64(2)), int(i64(3)), int(i64(4)), hx(5))
+	case "sched", "schedx":
+		return execSched(w)
 	case "genrun", "genrunx":
 		c, err := strconv.ParseUint(w[1], 10, 32)
 		if err != nil {
@@ -184,6 +186,118 @@ func exec(op string) (res string) {
 			return "bounded"
 		}
 		return "NOT-BOUNDED"
+	case "range":
+		// what the two documented range queries select, decided by the real Min/MaxTimeUUID and Cassandra's order
+		ta, tb := time.Unix(i64(1), i64(2)), time.Unix(i64(3), i64(4))
+		u := uuidOf(hx(5))
+		io := func(b bool) string {
+			if b {
+				return "in"
+			}
+			return "out"
+		}
+		incl := cassLe(gocql.MinTimeUUID(ta), u) && cassLe(u, gocql.MaxTimeUUID(tb))
+		excl := !cassLe(u, gocql.MaxTimeUUID(ta)) && !cassLe(gocql.MinTimeUUID(tb), u)
+		return "incl=" + io(incl) + " excl=" + io(excl)
+	case "casscmp":
+		a, b := uuidOf(hx(1)), uuidOf(hx(2))
+		c := javaCompare(a, b)
+		if (c <= 0) != cassLe(a, b) || (c >= 0) != cassLe(b, a) {
+			return "HARNESS-ORDERS-DISAGREE"
+		}
+		r := "gt"
+		if c <= 0 {
+			r = "le"
+		}
+		if c >= 0 {
+			return r + " ge"
+		}
+		return r + " lt"
+	case "genord":
+		// two GENERATED time-UUIDs (UUIDFromTime, whatever the counter and node are right now) under Cassandra's order
+		ta, tb := time.Unix(i64(1), i64(2)), time.Unix(i64(3), i64(4))
+		u := gocql.UUIDFromTime(ta)
+		v := gocql.UUIDFromTime(tb)
+		uv, vu := cassLe(u, v), cassLe(v, u)
+		ord := "same-tick"
+		switch {
+		case tickOf(i64(1), i64(2)) == tickOf(i64(3), i64(4)):
+			if !uv && !vu {
+				ord = "NOT-TOTAL"
+			}
+		case uv && !vu:
+			ord = "lt"
+		case vu && !uv:
+			ord = "gt"
+		default:
+			ord = "UNORDERED"
+		}
+		bounds := "ok"
+		if !cassLe(gocql.MinTimeUUID(ta), u) || !cassLe(u, gocql.MaxTimeUUID(ta)) || !cassLe(gocql.MinTimeUUID(tb), v) || !cassLe(v, gocql.MaxTimeUUID(tb)) {
+			bounds = "OUTSIDE"
+		}
+		return ord + " bounds=" + bounds
+	case "randn":
+		// RandomUUID / MustRandomUUID when the random source can deliver only these bytes
+		b := hx(1)
+		old := rand.Reader
+		defer func() { rand.Reader = old }()
+		rand.Reader = bytes.NewReader(b)
+		u, err := gocql.RandomUUID()
+		rand.Reader = bytes.NewReader(b)
+		must := func() (res string) {
+			defer func() {
+				if recover() != nil {
+					res = "panic"
+				}
+			}()
+			if m := gocql.MustRandomUUID(); m != u {
+				return "DIFFERENT:" + vh.Hex(m[:])
+			}
+			return "ok"
+		}()
+		if err != nil {
+			return fmt.Sprintf("err %s must=%s", vh.Hex(u[:]), must)
+		}
+		return fmt.Sprintf("ok %s v=%d var=%d must=%s", vh.Hex(u[:]), u.Version(), u.Variant(), must)
+	case "mcqlx":
+		var v interface{}
+		switch w[1] {
+		case "unset":
+			v = gocql.UnsetValue
+		case "nilval":
+			v = nil
+		case "int":
+			v = 5
+		case "float":
+			v = 1.5
+		case "bool":
+			v = true
+		case "time":
+			v = time.Unix(0, 0)
+		case "arr15":
+			v = [15]byte{}
+		case "uuidslice":
+			v = []gocql.UUID{{}}
+		default:
+			panic("bad-op: value kind")
+		}
+		for _, typ := range []gocql.Type{gocql.TypeUUID, gocql.TypeTimeUUID} {
+			b, err := gocql.Marshal(gocql.NewNativeType(4, typ, ""), v)
+			if err != nil {
+				if typ == gocql.TypeTimeUUID {
+					return "err"
+				}
+				continue
+			}
+			if b != nil {
+				return "ok " + vh.Hex(b)
+			}
+			if typ == gocql.TypeTimeUUID {
+				return "ok null"
+			}
+		}
+		return "INCONSISTENT"
 	case "randchk":
 		b := hx(1)
 		old := rand.Reader
@@ -218,6 +332,40 @@ func exec(op string) (res string) {
 		return "ok"
 	}
 	return "bad-op"
+}
+
+// javaCompare: Cassandra 3.x/4.x TimeUUIDType.compareCustom for two version-1 values, transliterated (as recalled):
+//
+//	long msb1 = reorderTimestampBytes(b1.getLong(0)), msb2 = …;  int c = Long.compare(msb1, msb2); if (c != 0) return c;
+//	return Long.compare(signedBytesToNativeLong(b1.getLong(8)), signedBytesToNativeLong(b2.getLong(8)));
+//	reorderTimestampBytes(x) = (x << 48) | ((x << 16) & 0xFFFF00000000L) | (x >>> 32)
+//	signedBytesToNativeLong(x) = x ^ 0x0080808080808080L
+//
+// A second, differently shaped formulation of the order Spec.cassLe states (timestamp, then signed bytes).
+func javaCompare(a, b gocql.UUID) int {
+	getLong := func(u gocql.UUID, off int) int64 {
+		var x uint64
+		for i := 0; i < 8; i++ {
+			x = x<<8 | uint64(u[off+i])
+		}
+		return int64(x)
+	}
+	reorder := func(x int64) int64 {
+		return (x << 48) | ((x << 16) & 0xFFFF00000000) | int64(uint64(x)>>32)
+	}
+	cmp := func(x, y int64) int {
+		switch {
+		case x < y:
+			return -1
+		case x > y:
+			return 1
+		}
+		return 0
+	}
+	if c := cmp(reorder(getLong(a, 0)), reorder(getLong(b, 0))); c != 0 {
+		return c
+	}
+	return cmp(getLong(a, 8)^0x0080808080808080, getLong(b, 8)^0x0080808080808080)
 }
 
 // cassLe: Cassandra's TimeUUIDType order, written independently of gocql: RFC 4122 timestamp first,
@@ -432,6 +580,85 @@ func genTime(r *vh.Rng) (int64, int64, string) {
 	}
 }
 
+// tickOf: the 100 ns tick of a representable instant, computed independently of getTimestamp
+func tickOf(sec, ns int64) int64 { return (sec-timeBase)*10000000 + ns/100 }
+
+// mkV1 packs a version-1 RFC 4122 UUID from a 60-bit timestamp and 8 low bytes (variant bits forced to 10),
+// independently of TimeUUIDWith (RFC 4122 4.1.2: time_low, time_mid, time_hi_and_version)
+func mkV1(ts int64, low [8]byte) []byte {
+	u := make([]byte, 16)
+	t := uint64(ts)
+	u[0], u[1], u[2], u[3] = byte(t>>24), byte(t>>16), byte(t>>8), byte(t)
+	u[4], u[5] = byte(t>>40), byte(t>>32)
+	u[6], u[7] = 0x10|byte(t>>56)&0x0f, byte(t>>48)
+	copy(u[8:], low[:])
+	u[8] = 0x80 | u[8]&0x3f
+	return u
+}
+
+// genRange: two representable instants a (given) and b = a moved by a small / large / zero / negative amount, and a
+// v1 RFC 4122 UUID whose timestamp sits on, next to, between or far from the two ticks, with extreme low bytes
+func genRange(r *vh.Rng, sec, ns int64) (string, string) {
+	maxTick := int64(1)<<60 - 1
+	if tickOf(sec, ns) > maxTick { // outside the representable range: not the theorem's subject
+		sec--
+	}
+	deltas := []int64{0, 1, 99, 100, 101, 199, 200, 1000, 1000000000, -1, -100, -200, 12345678901}
+	d := deltas[r.Intn(len(deltas))]
+	if r.Intn(4) == 0 {
+		d = int64(r.U64() % (1 << uint(1+r.Intn(50))))
+	}
+	tot := ns + d
+	bsec, bns := sec+tot/1000000000, tot%1000000000
+	if bns < 0 {
+		bsec, bns = bsec-1, bns+1000000000
+	}
+	if tickOf(bsec, bns) < 0 || tickOf(bsec, bns) > maxTick || bsec < timeBase {
+		bsec, bns = sec, ns
+	}
+	ta, tb := tickOf(sec, ns), tickOf(bsec, bns)
+	var ts int64
+	cls := "range/"
+	switch r.Intn(8) {
+	case 0:
+		ts, cls = ta, cls+"on-a"
+	case 1:
+		ts, cls = tb, cls+"on-b"
+	case 2:
+		ts, cls = ta-1, cls+"before-a"
+	case 3:
+		ts, cls = ta+1, cls+"after-a"
+	case 4:
+		ts, cls = tb-1, cls+"before-b"
+	case 5:
+		ts, cls = tb+1, cls+"after-b"
+	case 6:
+		ts, cls = ta+(tb-ta)/2, cls+"middle"
+	default:
+		ts, cls = int64(r.U64()&uint64(maxTick)), cls+"random"
+	}
+	if ts < 0 {
+		ts = 0
+	}
+	if ts > maxTick {
+		ts = maxTick
+	}
+	var low [8]byte
+	copy(low[:], r.Bytes(8))
+	switch r.Intn(4) {
+	case 0: // the bounds' own low bytes and their neighbours under the signed-byte order
+		for k := range low {
+			low[k] = r.PickByte([]byte{0x80, 0x7f, 0x00, 0xff, 0x81, 0x7e})
+		}
+		low[0] = r.PickByte([]byte{0x80, 0xbf, 0x81, 0xbe, 0xa0})
+	case 1:
+		low = [8]byte{0x80, 0x80, 0x80, 0x80, 0x80, 0x80, 0x80, 0x80}
+	case 2:
+		low = [8]byte{0xbf, 0x7f, 0x7f, 0x7f, 0x7f, 0x7f, 0x7f, 0x7f}
+	}
+	return fmt.Sprintf("range %d %d %d %d %s", sec, ns, bsec, bns, vh.Hex(mkV1(ts, low))), cls
+}
+
 func genT(r *vh.Rng) (int64, string) {
 	switch r.Intn(6) {
 	case 0:
@@ -478,6 +705,10 @@ func main() {
 	// uniqueness under bursts: TimeUUID() far above 16384 calls with the harness's own clock readings around
 	// every chunk (spec-backed monitors), and generator runs under a controlled clock
 	runBursts(r, out, mult)
+	// error values: Go error type and text of every failing entry point
+	runErrs(r, out, mult)
+	// concurrent callers as schedules: the interleaving of readings and increments is the input
+	runSched(r, out, mult)
 	// property oracles on the representable range
 	for i := 0; i < 2000*mult; i++ {
 		t, cls := genT(r)
@@ -508,6 +739,69 @@ func main() {
 		}
 		op = fmt.Sprintf("bound %d %d %s", sec, ns, vh.Hex(u[:]))
 		out.Case(op, exec(op), "bound", true)
+		{
+			op, cls := genRange(r, sec, ns)
+			out.Case(op, exec(op), cls, true)
+		}
+		{
+			// the second instant: the same, one tick / a few ns / a second / far away, before or after
+			rop, _ := genRange(r, sec, ns)
+			f := strings.Fields(rop)
+			gocql.VerifSetClockSeq(genClock(r))
+			op = fmt.Sprintf("genord %s %s %s %s", f[1], f[2], f[3], f[4])
+			if r.Bool() {
+				op = fmt.Sprintf("genord %s %s %s %s", f[3], f[4], f[1], f[2])
+			}
+			out.Case(op, exec(op), "genord", true)
+		}
+		{
+			// two version-1 values (any variant bits): equal / adjacent / random timestamps, low bytes from the sign edges
+			mk := func(ts int64) []byte {
+				var low [8]byte
+				copy(low[:], r.Bytes(8))
+				if r.Bool() {
+					for k := range low {
+						low[k] = r.PickByte([]byte{0x80, 0x7f, 0x00, 0xff, 0x81, 0x7e, 0x01})
+					}
+				}
+				u := mkV1(ts, low)
+				u[8] = low[0] // any variant
+				return u
+			}
+			ta := int64(r.U64() & (1<<60 - 1))
+			if r.Intn(4) == 0 {
+				ta = []int64{0, 1, 1<<60 - 1, 1<<59 - 1, 1 << 59, 1<<48 - 1, 1 << 48, 1<<32 - 1, 1 << 32, 0x0800000000000000, 0x07ffffffffffffff}[r.Intn(11)]
+			}
+			tb := ta
+			switch r.Intn(6) {
+			case 0:
+				tb = (ta + 1) & (1<<60 - 1)
+			case 1:
+				tb = ta ^ (1 << uint(r.Intn(60)))
+			case 2:
+				tb = int64(r.U64() & (1<<60 - 1))
+			}
+			ua := mk(ta)
+			ub := mk(tb)
+			if r.Intn(3) == 0 { // equal up to one low byte
+				copy(ub[8:], ua[8:])
+				ub[8+r.Intn(8)] ^= byte(1 << uint(r.Intn(8)))
+			}
+			if r.Intn(16) == 0 { // the same timestamp and low bytes (the version nibble may differ: not compared)
+				ub = append([]byte{}, ua...)
+			}
+			op = fmt.Sprintf("casscmp %s %s", vh.Hex(ua), vh.Hex(ub))
+			out.Case(op, exec(op), "casscmp", true)
+		}
+		if i%4 == 0 {
+			n := []int{0, 1, 8, 15, 16, 17, 32}[r.Intn(7)]
+			op = "randn " + vh.Hex(r.Bytes(n))
+			out.Case(op, exec(op), fmt.Sprintf("randn/%d", n), true)
+		}
+		if i < 64 {
+			op = "mcqlx " + []string{"unset", "nilval", "int", "float", "bool", "time", "arr15", "uuidslice"}[i%8]
+			out.Case(op, exec(op), "mcqlx", i < 8)
+		}
 		op = "randchk " + vh.Hex(genUUIDBytes(r))
 		out.Case(op, exec(op), "randchk", true)
 		s, scls := genString(r)
